@@ -260,6 +260,8 @@ func genC02(t *rapid.T, cfg *core.Config) *core.Case {
 	g := core.NewGen(t, spec, rapid.IntRange(3, fuel).Draw(t, "fuel"), cfg.Excl)
 	g.Calls = rapid.IntRange(0, 9).Draw(t, "calls") < 3
 	g.Big = rapid.IntRange(0, 39).Draw(t, "big") == 0
+	mode := rapid.SampledFrom([]string{"typed", "typed", "typed", "untyped"}).Draw(t, "mode")
+	g.AllDynamic = mode == "untyped"
 	var x *core.X
 	if rapid.IntRange(0, 9).Draw(t, "control") == 0 {
 		x = g.Root() // control group: most rewrites never fire here
@@ -270,7 +272,6 @@ func genC02(t *rapid.T, cfg *core.Config) *core.Case {
 	c.X, c.Env = x, spec
 	p := &core.Printer{Parens: core.ParenMode(rapid.IntRange(0, 2).Draw(t, "parens")), Choose: func(n int, l string) int { return rapid.IntRange(0, n-1).Draw(t, l) }}
 	c.Source = p.Print(x)
-	mode := rapid.SampledFrom([]string{"typed", "typed", "typed", "untyped"}).Draw(t, "mode")
 	c.P["mode"] = mode
 	marks := []string{}
 	if mode == "typed" && rapid.Bool().Draw(t, "marked") {
